@@ -82,7 +82,7 @@ Fixpoint show_inner (e : expr) : list token :=
   | EPrefix op r => tk op :: wrap r (show_inner r)
   | EInfix op l r =>
       match op, r with
-      | TPeriod, EStr name => wrap l (show_inner l) ++ [tk TPeriod; mkTok TIdent name]
+      | TPeriod, EIdent name => wrap l (show_inner l) ++ [tk TPeriod; mkTok TIdent name]
       | _, _ => wrap l (show_inner l) ++ tk op :: wrap r (show_inner r)
       end
   | EPostfix _ op => [tk op]
@@ -279,9 +279,10 @@ Fixpoint pe (tn fn : bool) (e : expr) {struct e} : bool :=
   | EInfix op l r =>
       pe tn fn l &&
       (if tokty_beq op TPeriod
-       then match r with EStr name => ident_ok name | _ => false end
-            (* `a.b` is the ONLY spelling: the parser turns the name after the
-               dot into a string; no other right operand can come out *)
+       then match r with EIdent name => ident_ok name | _ => false end
+            (* `a.b` is the only spelling in the printable class: the parser keeps whatever
+               follows the dot as parsed (for `a.b` the identifier b); the class is restricted
+               to an identifier operand, which is what show_inner prints after the dot *)
        else binop op && pe tn (fn && negb (hasfn l)) r)
   | EPostfix _ _ => false          (* only as a statement: see ps *)
   | ETernary c t f =>
@@ -351,7 +352,7 @@ Fixpoint din (e : expr) : N :=
   | EPrefix _ r => 2 + dop r
   | EInfix op l r =>
       match op, r with
-      | TPeriod, EStr _ => N.max (1 + dop l) 3
+      | TPeriod, EIdent _ => N.max (1 + dop l) 3
       | _, _ => N.max (1 + dop l) (3 + dop r)
       end
   | ETernary c t f => N.max (1 + dop c) (2 + N.max (din t) (din f))
@@ -436,7 +437,7 @@ Fixpoint x_expr (t : xtree) : expr :=
   | XBin op l r => EInfix op (x_expr l) (x_expr r)
   | XPre op r => EPrefix op (x_expr r)
   | XIdx l i => EIndex (x_expr l) (x_expr i)
-  | XDot l n => EInfix TPeriod (x_expr l) (EStr n)
+  | XDot l n => EInfix TPeriod (x_expr l) (EIdent n)
   | XCall f args => ECall (x_expr f) (map x_expr args)
   end.
 
